@@ -430,6 +430,34 @@ pub fn run(cx: &mut Ctx) {
 	pick(&st_cfgs, &st_bytes, "static", Kind::StaticInvoice, if thorough { 1499 } else { 97 }, &mut flip_jobs);
 	pick(&offers, &offer_bytes, "offer", Kind::Offer, 2399 / q, &mut flip_jobs);
 	pick(&refunds, &refund_bytes, "refund", Kind::Refund, 911 / q, &mut flip_jobs);
+	// an offer denominated in a currency cannot be built through the public builder (the setter is
+	// crate-private); splice a currency record into a built offer so that at least parsing and
+	// re-encoding of such offers is covered
+	{
+		let oc: b12::OCfg = [0, 1, 2, 2, 0, 1, 2, 1];
+		if let Ok(o) = b12::build_offer(fx, &oc) {
+			let b: Vec<u8> = o.as_ref().to_vec();
+			let recs = b12::tlv_records(&b).expect("well formed");
+			let at = recs.iter().find(|r| r.typ >= 6).map(|r| r.start).unwrap_or(b.len());
+			let mut c = b[..at].to_vec();
+			c.extend_from_slice(&[6, 3, b'U', b'S', b'D']);
+			c.extend_from_slice(&b[at..]);
+			match b12::parse_kind(Kind::Offer, c.clone()) {
+				Ok(re) if re == c => {
+					cx.stats.add("b12.offer.currency_spliced.parsed_identity", 1);
+					cx.nontrivial(&c);
+					flip_jobs.push((Kind::Offer, c, json!({"family": "offer-currency-spliced", "cfg": oc.to_vec()})));
+				},
+				o => cx.push(7 << 32, Viol {
+					oracle: "bolt12-parse-reencode",
+					identity: "bolt12-parse-reencode|offer|currency-spliced".into(),
+					detail: format!("offer with a spliced currency record {} gives {:?}", hex(&c), o.map(|x| hex(&x))),
+					replay: json!({"fam": "b12-bytes", "bytes": hex(&c)}),
+					rank: 0,
+				}),
+			}
+		}
+	}
 	for (k, _, _) in flip_jobs.iter() {
 		cx.stats.add(&format!("b12.flip.{}.objects", k.name()), 1);
 	}
